@@ -196,6 +196,52 @@ func runC18(c *Ctx) {
 		}
 	}
 
+	// ------------------------------------------------------------ Y7
+	c.Rule("C18.Y7", "GATE", "a pending request is never overwritten: every insertion into a pending pool (pendPool[id] = request) is dominated by a lookup of the same pool and key that found nothing — the work a request holds can only come back through cancel, Revoke, expire or deliver")
+	c.Min(1)
+	{
+		frT2 := w.Named(dlPkg, "fetchRequest")
+		nIns := 0
+		for _, fn := range w.FuncsIn(dlPkg) {
+			if strings.HasSuffix(w.fileOf(fn.Pos()), "_test.go") {
+				continue
+			}
+			n := 0
+			for _, in := range allInstrs(fn) {
+				mu, ok := in.(*ssa.MapUpdate)
+				if !ok {
+					continue
+				}
+				mt, ok := mu.Map.Type().Underlying().(*types.Map)
+				if !ok {
+					continue
+				}
+				if pt, ok := mt.Elem().(*types.Pointer); !ok || !types.Identical(pt.Elem(), frT2) {
+					continue
+				}
+				nIns++
+				c.sites++
+				c.sawFunc(fname(fn))
+				absent := false
+				for _, a := range atomsOf(factsAtInstr(mu)) {
+					if a.Kind != "true" || a.Truth {
+						continue
+					}
+					if ex, ok := stripConv(a.X).(*ssa.Extract); ok && ex.Index == 1 {
+						if lk, ok := ex.Tuple.(*ssa.Lookup); ok && samePath(lk.X, mu.Map) && samePath(lk.Index, mu.Key) {
+							absent = true
+						}
+					}
+				}
+				c.Check(fmt.Sprintf("%s#pending-insert@%d-only-when-absent", fname(fn), n), mu.Pos(), absent, ifelse(absent, "inserted only after the same key was looked up and not found", "a request can be stored over an existing pending request of the same peer id (the lookup that guards the insertion is not simply 'found → refuse'): the old request's headers are in no pool any more, nobody fetches them again and the sync goes quiet with blocks missing"))
+				n++
+			}
+		}
+		if nIns == 0 {
+			c.Undecided(dlPkg+"#pending-insertions", 0, "no insertion into a pending pool found")
+		}
+	}
+
 	// ------------------------------------------------------------ Y6
 	c.Rule("C18.Y6", "EXHAUSTIVE", "queue.Reset gives every per-cycle container of the queue a fresh value on every path (an unconditional store of a new map / slice / zero, or a Reset() call on the priority queue): nothing scheduled, pending, done or cached in one sync cycle is visible to the next")
 	c.Min(12)
@@ -302,6 +348,71 @@ func runC18(c *Ctx) {
 	})
 	c.sites++
 	c.Check(fname(rs)+"#released-prefix", rs.Pos(), same && fromCount, ifelse(same && fromCount, "copy bound, cache shift and offset advance use one value from countProcessableItems()", "the number of results handed out, the shift of the cache and the advance of resultOffset are not one value: results are skipped, repeated or misnumbered"))
+	// after the shift the vacated TAIL of the window is cleared: the nil stores come after the shifting copy and
+	// their index starts at len(cache) − n
+	{
+		var shift ssa.CallInstruction
+		for _, ci := range callInstrs(rs) {
+			if bi, ok := ci.Common().Value.(*ssa.Builtin); ok && bi.Name() == "copy" {
+				a := ci.Common().Args
+				f0, _ := loadedField(stripConv(a[0]))
+				if sl, ok := a[1].(*ssa.Slice); ok && f0 == rc {
+					if f1, _ := loadedField(stripConv(sl.X)); f1 == rc && sl.Low != nil {
+						shift = ci
+					}
+				}
+			}
+		}
+		var clears []*ssa.Store
+		for _, in := range allInstrs(rs) {
+			st, ok := in.(*ssa.Store)
+			if !ok {
+				continue
+			}
+			ia, ok := st.Addr.(*ssa.IndexAddr)
+			if !ok {
+				continue
+			}
+			if f, _ := loadedField(stripConv(ia.X)); f != rc {
+				continue
+			}
+			if cv, ok := st.Val.(*ssa.Const); ok && cv.IsNil() {
+				clears = append(clears, st)
+			}
+		}
+		c.sites++
+		okTail := shift != nil && len(clears) > 0
+		why := "the shifting copy or the clearing of the vacated slots was not found"
+		for _, st := range clears {
+			if shift == nil {
+				break
+			}
+			if !(instrDominates(shift, st) || loopBefore(shift, st)) {
+				okTail, why = false, "slots are cleared before the window is shifted down"
+			}
+			// index: a loop phi that starts at len(cache) − n
+			ia := st.Addr.(*ssa.IndexAddr)
+			startsAtTail := false
+			if phi, ok := stripConv(ia.Index).(*ssa.Phi); ok {
+				for i, e := range phi.Edges {
+					if naturalLoop(phi.Block())[phi.Block().Preds[i]] {
+						continue
+					}
+					if bo, ok := stripConv(e).(*ssa.BinOp); ok && bo.Op == token.SUB && tail != nil && stripConv(bo.Y) == stripConv(tail) {
+						if lc, ok := stripConv(bo.X).(*ssa.Call); ok {
+							if bi, ok := lc.Call.Value.(*ssa.Builtin); ok && bi.Name() == "len" {
+								startsAtTail = true
+							}
+						}
+					}
+				}
+			}
+			if !startsAtTail {
+				okTail, why = false, "the cleared slots do not start at len(cache) − n"
+			}
+		}
+		c.Check(fname(rs)+"#vacated-tail-cleared-after-shift", rs.Pos(), okTail, ifelse(okTail, "after copy(cache, cache[n:]) the slots [len−n, len) are set to nil", why+": the tail of the window keeps pointing at containers that were moved down, so with a nearly full window a later reservation finds a stale slot, the body of block N+n lands in block N's container, and a block is handed out with another block's transactions"))
+	}
 	for _, fn := range w.FuncsIn(dlPkg) {
 		if strings.HasSuffix(w.fileOf(fn.Pos()), "_test.go") {
 			continue
